@@ -36,8 +36,19 @@ def judge(res, model):
     for i, s in enumerate(sets):
         for n in s:
             where.setdefault(n, i)
-    tcs = sem.tree_configs_cached(model)
-    cfgs = [s for s in tcs if all(sem.ev(t, s) for _n, t in model[1])]
+    cfgs = []
+    if sh.size(model) <= 16:
+        tcs = sem.tree_configs_cached(model)
+        cfgs = [s for s in tcs if all(sem.ev(t, s) for _n, t in model[1])]
+    else:
+        # beyond brute force: members of one set must be linked by all-children-needed relations
+        pm = sh.parent_map(model)
+        need_all = set(k for (_p, a, _b, ks) in sh.relations(model) if a >= len(ks) for k in ks)
+        for s in sets:
+            tops = [n for n in s if not (n in need_all and pm[n] in s)]
+            if len(tops) != 1:
+                out.append(Fail('not-co-selected', {'set-size': len(s), 'unlinked': tops[:4]}))
+                break
     for s in sets:
         for a in s[1:]:
             if any((a in c) != (s[0] in c) for c in cfgs):
@@ -52,7 +63,7 @@ def judge(res, model):
 
 
 def check(case):
-    model = case[1]
+    model = opscfg.resolve(case)
     if case[0] == 'SE':
         return opscfg.edit_history(model, FMAtomicSets, judge)
     fm, fails = cm.built(model)
@@ -68,4 +79,6 @@ def check(case):
 
 
 def outcome(case):
+    if case[0] == 'B':
+        return 'big'
     return 'nsets?'
